@@ -1,11 +1,15 @@
 package comet
 
 import (
+	"errors"
 	"fmt"
 	"sync"
 	"sync/atomic"
 	"time"
 )
+
+// errMemtableFrozen is returned by a memtable that has been rotated out and accepts no more writes.
+var errMemtableFrozen = errors.New("memtable is frozen")
 
 // memtable is a write buffer that holds recent index updates in memory.
 // Once it reaches a size threshold, it is marked immutable and flushed to disk.
@@ -61,12 +65,19 @@ func newMemtable(vecIdx VectorIndex, txtIdx TextIndex, metaIdx MetadataIndex, si
 //   - error: Error if add fails or memtable is frozen
 func (m *memtable) add(vector []float32, text string, metadata map[string]interface{}) (uint32, error) {
 	if m.frozen.Load() {
-		return 0, fmt.Errorf("memtable is frozen")
+		return 0, errMemtableFrozen
 	}
 
 	verifPoint("memtable.add.prelock", m)
 	m.mu.Lock()
 	defer m.mu.Unlock()
+
+	// freeze() takes this lock, so a write either completes before the memtable is
+	// frozen (and is flushed with it) or sees it frozen here; it can never land in a
+	// memtable that is already being flushed
+	if m.frozen.Load() {
+		return 0, errMemtableFrozen
+	}
 
 	// Add to underlying index
 	id, err := m.index.Add(vector, text, metadata)
@@ -94,12 +105,16 @@ func (m *memtable) add(vector []float32, text string, metadata map[string]interf
 //   - error: Error if add fails or memtable is frozen
 func (m *memtable) addWithID(id uint32, vector []float32, text string, metadata map[string]interface{}) error {
 	if m.frozen.Load() {
-		return fmt.Errorf("memtable is frozen")
+		return errMemtableFrozen
 	}
 
 	verifPoint("memtable.add.prelock", m)
 	m.mu.Lock()
 	defer m.mu.Unlock()
+
+	if m.frozen.Load() {
+		return errMemtableFrozen
+	}
 
 	// Add to underlying index
 	if err := m.index.AddWithID(id, vector, text, metadata); err != nil {
@@ -154,7 +169,10 @@ func (m *memtable) hasRoomFor(vector []float32, text string, metadata map[string
 // freeze marks the memtable as immutable and ready for flushing.
 // After freezing, no more writes are accepted.
 func (m *memtable) freeze() {
+	// Wait for a write that is in progress (see add)
+	m.mu.Lock()
 	m.frozen.Store(true)
+	m.mu.Unlock()
 }
 
 // IsFrozen returns true if the memtable is frozen.
@@ -288,7 +306,13 @@ func (mq *memtableQueue) add(vector []float32, text string, metadata map[string]
 	mq.mu.Unlock()
 	verifPoint("memq.add.picked", mutable)
 
-	return mutable.add(vector, text, metadata)
+	id, err := mutable.add(vector, text, metadata)
+	if errors.Is(err, errMemtableFrozen) {
+		// The memtable was rotated out between picking it and writing to it: that is
+		// not the caller's problem, write to the new one
+		return mq.add(vector, text, metadata)
+	}
+	return id, err
 }
 
 // addWithID adds a document with a specific ID to the active memtable.
@@ -304,7 +328,11 @@ func (mq *memtableQueue) addWithID(id uint32, vector []float32, text string, met
 	mq.mu.Unlock()
 	verifPoint("memq.add.picked", mutable)
 
-	return mutable.addWithID(id, vector, text, metadata)
+	err := mutable.addWithID(id, vector, text, metadata)
+	if errors.Is(err, errMemtableFrozen) {
+		return mq.addWithID(id, vector, text, metadata)
+	}
+	return err
 }
 
 // Rotate creates a new mutable memtable and freezes the old one.
